@@ -20,6 +20,7 @@ func init() {
 			c07R3(c, "C07.R3")
 			c07R4(c, "C07.R4")
 			c08R2(c, "C07.R5") // a failed commit must give back the pages it took from the free list (physical rollback shape)
+			ruleRollbackUndoesFrees(c, "C07.R6")
 		},
 	})
 }
